@@ -576,17 +576,19 @@ def level1Child (fs : FS) : String → Sys → Option String → Json → Res L1
   | "space", us, base, j => spaceFromDict us base fs j
   | _, _, _, _ => .error .typeError
 
+/-- number of environments of a network object -/
+def nEnvOf (n : L1) : Nat := match n.lookup "environments" with | some (.strs l) => l.length | _ => 0
+
+/-- `space.get_cell_env_array()`: the grid's map, or the environment of every node of a graph -/
+def cellEnvsOf (sp : L1) : List Int :=
+  match sp.lookup "cell_env" with
+  | some (.ints l) => l
+  | _ => (childList sp "nodes").map fun n => getInt n "environment"
+
 /-- `RDSystem.space` setter: no cell may name an environment beyond the network's list -/
 def finishSystem (o : L2) : Res L2 :=
-  let nenv : Nat := match o.lookup "network" with
-    | some (.child n) => (match n.lookup "environments" with | some (.strs l) => l.length | _ => 0)
-    | _ => 0
-  let envs : List Int := match o.lookup "space" with
-    | some (.child sp) =>
-      (match sp.lookup "cell_env" with
-       | some (.ints l) => l
-       | _ => (childList sp "nodes").map fun n => getInt n "environment")
-    | _ => []
+  let nenv : Nat := match o.lookup "network" with | some (.child n) => nEnvOf n | _ => 0
+  let envs : List Int := match o.lookup "space" with | some (.child sp) => cellEnvsOf sp | _ => []
   if envs.any (fun e => decide (e ≥ (nenv : Int))) then .error .badValue else .ok o
 
 /-- does the reader fill an omitted "space" itself with a grid in the system's units (documented default),
